@@ -171,6 +171,16 @@ def run(ctx):
         touched = any(b.path in reach_bodies for o, b, bi, st in field_read_sites(prog, WSTATE_ADT, f))
         ctx.ob('R08.4', f'cancel_task|touches {f}', touched,
                f'the CancelTasks handler must look into WorkerState.{f} (a container that can hold the canceled task)', ct.loc())
+    # cancelling one task removes one task: no bulk removal on the backlog containers inside cancel_task
+    BULK = ('::drain', '::truncate', '::clear', '::split_off', '::retain_mut', 'mem::take', 'Default>::default')
+    bulk = []
+    for bp_ in sorted(bodies):
+        bb_ = prog.bodies[bp_]
+        for bi_, t_, c_ in bb_.calls():
+            if bi_ in bb_.reachable() and (c_ or '').endswith(('::drain', '::truncate', '::clear', '::split_off')):
+                bulk.append((bb_, bi_, c_))
+    ctx.ob('R08.4', 'cancel_task|removes only the canceled task', not bulk,
+           f'cancel_task removes the canceled id with an id predicate (retain / remove(pos)); a range or bulk removal ({[c_.split("::")[-1] for b_, i_, c_ in bulk]}) also drops other pre-sent tasks, which the server still holds as Prefilled on this worker and which then never start', bulk[0][0].loc(bulk[0][1]) if bulk else ct.loc())
     pwm = prog.body(T + 'worker::rpc::process_worker_message')
     TWM = T + 'messages::worker::ToWorkerMessage'
     cc = pwm.call_blocks(ct.path)
